@@ -1,5 +1,6 @@
 import SynapModel.Rng
 import SynapModel.Generated.RandomSites
+import SynapModel.Generated.PersistentSites
 /-!
 # C19 — Results are reproducible under manual_seed and independent of hash order (logical core)
 
@@ -18,6 +19,19 @@ theorem randomsites_seeded : randomSites.all siteOk = true := by decide +kernel
 
 /-- the table is not empty (the extractor did find the known sites) -/
 theorem randomsites_nonempty : 5 ≤ randomSites.length := by decide +kernel
+
+/-- **The only state that outlives a call is the documented one.**  "Results do not depend on how often the computation has
+    been repeated" fails exactly when some call leaves state behind for the next one.  Every place in the package where that
+    is possible at all — a module-level or class-level mutable object, a mutable default argument, a memoising decorator, a
+    `global` statement — is listed by the extractor on every run; the theorem says the list holds nothing but the two engine
+    flags, the lazily resolved imports and one read-only default.  A cache, a pooled buffer or a shared default list added
+    to the source breaks this obligation before any input exhibits it. -/
+theorem persistent_state_is_the_documented_one : persistentSites.all persistentOk = true := by decide +kernel
+
+/-- the extractor did find the known sites (both engine flags) -/
+theorem persistentsites_nonempty :
+    (persistentSites.filter (fun s => s.name == "gradient__")).length ≥ 1 ∧
+    (persistentSites.filter (fun s => s.name == "retain_grads__")).length ≥ 1 := by decide +kernel
 
 /-- **Every modelled API call draws only through generator functions that `manual_seed` seeds.** -/
 theorem draws_seeded (a : Api) : ∀ d ∈ draws a, d.1 ∈ seededFns := by
